@@ -12,6 +12,7 @@ extern "Rust" {
     fn fi_verif_replay_state(name: &str, cfg: u32, p: u32, s: &mut common::ScriptSrc<'_>) -> bool;
     fn fi_verif_replay_timer(name: &str, cfg: u32, p: u32, s: &mut common::ScriptSrc<'_>) -> bool;
     fn fi_verif_replay_mpmc(name: &str, cfg: u32, p: u32, s: &mut common::ScriptSrc<'_>) -> bool;
+    fn fi_verif_replay_sem_shared(name: &str, cfg: u32, p: u32, s: &mut common::ScriptSrc<'_>) -> bool;
 }
 
 fn replay_dispatch(name: &str, cfg: u32, p: u32, s: &mut common::ScriptSrc<'_>) -> bool {
@@ -25,6 +26,7 @@ fn replay_dispatch(name: &str, cfg: u32, p: u32, s: &mut common::ScriptSrc<'_>) 
             || fi_verif_replay_state(name, cfg, p, s)
             || fi_verif_replay_timer(name, cfg, p, s)
             || fi_verif_replay_mpmc(name, cfg, p, s)
+            || fi_verif_replay_sem_shared(name, cfg, p, s)
             || life::replay(name, cfg, p, s)
     }
 }
